@@ -1,5 +1,5 @@
 (* C10 — non-vacuity and the pre-fix witnesses (KNOWN_FINDINGS: fixed dbf4bcf, 5c4db1b, 0d5ed75). *)
-From V.C10 Require Import Spec Lock Model Proofs.
+From V.C10 Require Import Spec Lock Model Proofs AutoloadModel AutoloadProofs.
 Open Scope string_scope.
 
 (* ---- the lock table of runtime/vm.go BEFORE the fixes (as the walker printed it for 6d28fe1) *)
@@ -90,4 +90,16 @@ Example autoload_window_refuted :
                 [0;0;0;0; 0;0;0; 0;0;0;  1;1;1;1; 1;1;1; 1;1;1;1;  0;0;0;0;0;0; 0;0;0;0;0]%nat in
   returned_of s 1 = [RFound []; RFound [1]; RFound []] /\
   returned_of s 0 = [RFound []; RFound []; ROk; ROk; RFound [1]].
+Proof. vm_compute. split; reflexivity. Qed.
+
+(* the composite GetOrLoadClass machine BEFORE fix 304abde (no load lock): thread 1 finds the file marked while
+   thread 0 is still parsing it and reports "class 7 not found in file" *)
+Example getorload_refuted_without_load_lock :
+  let s := arun false (ainit [[7]; [7]]%nat) [0;0;0;0;0; 1;1;1;1;1;1;1; 0;0;0]%nat in
+  map rets (AutoloadModel.thr s) = [[Found 7%nat]; [NotFound 7%nat]].
+Proof. vm_compute. reflexivity. Qed.
+(* the same schedule with the lock: thread 1 waits at the lock, then finds the class *)
+Example getorload_with_load_lock :
+  let s := arun true (ainit [[7]; [7]]%nat) [0;0;0;0;0; 1;1;1;1;1;1;1; 0;0;0; 1;1;1;1;1]%nat in
+  map rets (AutoloadModel.thr s) = [[Found 7%nat]; [Found 7%nat]] /\ parses s = [7]%nat.
 Proof. vm_compute. split; reflexivity. Qed.
